@@ -404,6 +404,16 @@ def _check_aggregate(R1, R3, tag, br, b, want_agg, fields, where):
         else:
             R3.check(not sites, tag, "transient default %s %s" % (fname, br), "transient field %r is built from a read instead "
                      "of its default expression" % fname, where, sample={"decl": tag, "transient": fname, "value": show(term)[:60]})
+            # a default declared as an integer literal is that literal (not, say, the default of a FieldAdded step of the
+            # same field)
+            import re as _re
+            decl_expr = next((str(f["transient"]) for f in fields if f["name"] == fname and f["transient"] is not None), "")
+            m_ = _re.fullmatch(r"\s*(\d+)\s*_?\s*([ui](8|16|32|64|128|size))?\s*", decl_expr)
+            got = guards.rng(term) if isinstance(term, tuple) else None
+            if m_ and got and got[0] == got[1]:
+                R3.check(got[0] == int(m_.group(1)), tag, "transient default value %s %s" % (fname, br), "transient field %r is "
+                         "declared with the default %s and built as %d" % (fname, decl_expr.strip(), got[0]), where,
+                         sample={"decl": tag, "transient": fname, "declared": decl_expr.strip(), "built": got[0]})
 
 
 def _check_enum(R2, R3, R4, R6, R7, tag, decl, m, W, rb, crate, where):
